@@ -36,7 +36,7 @@ def load_corpus():
         props = meta.get('detect_with') or [meta['property']]
         # meta.kind == "benign": a behaviour-preserving refactor written by a sub-agent (false-alarm canary); default: a break
         kind = 'benign' if meta.get('kind') == 'benign' else 'break'
-        if meta.get('kind') in ('benign-rejected', 'benign-limit'):
+        if meta.get('kind') in ('benign-rejected', 'benign-limit', 'break-uncovered'):
             continue  # not behaviour-preserving after all / needs the contract re-annotated (kept for the record, see meta.json)
         items.append(dict(id=os.path.basename(d), kind=kind, props=props, patch=pf, why=meta.get('summary', '')[:200], source='seeded'))
     return items
